@@ -113,8 +113,15 @@ Must be a literal string.",
         let os_string: OsString = desc_file_str.into_owned().into();
         let path_buf = PathBuf::from(os_string);
         let path = Path::new(&path_buf);
-        let descriptor =
-            get_message_descriptor(path, &message_type_str).expect("message type not found");
+        // The descriptor file and the message type come from the program text: a file that
+        // cannot be loaded or a type it does not contain is a compile error, not a panic.
+        let descriptor = get_message_descriptor(path, &message_type_str).map_err(|_| {
+            function::Error::InvalidArgument {
+                keyword: "desc_file",
+                value: desc_file.clone(),
+                error: "the descriptor file cannot be loaded or does not contain the message type",
+            }
+        })?;
 
         Ok(ParseProtoFn { descriptor, value }.as_expr())
     }
